@@ -105,9 +105,16 @@ type summary struct {
 }
 
 // Engine holds the results.
+// fnArg is a function value bound to a function-typed parameter in a calling context.
+type fnArg struct {
+	fn *ssa.Function
+	mc *ssa.MakeClosure
+}
+
 type Engine struct {
-	P *core.Prog
-	R *roles.Roles
+	fnArgs map[string]fnArg
+	P      *core.Prog
+	R      *roles.Roles
 
 	Classes  []Class
 	classIdx map[string]int
@@ -287,6 +294,68 @@ func (e *Engine) findTokens() {
 			}
 		})
 	}
+	// operations on a channel parameter (the receiver of a method of a named channel type: g.hold(), g.release())
+	// count for the fields handed to that parameter
+	type ops struct{ recv, send bool }
+	paramOps := map[*ssa.Function]map[int]*ops{}
+	for _, fn := range e.P.ModFuncs {
+		note := func(v ssa.Value, isRecv bool) {
+			p, ok := an.Origin(v).(*ssa.Parameter)
+			if !ok || p.Parent() != fn || !isTokenChanType(p.Type()) {
+				return
+			}
+			for i, q := range fn.Params {
+				if q == p {
+					if paramOps[fn] == nil {
+						paramOps[fn] = map[int]*ops{}
+					}
+					if paramOps[fn][i] == nil {
+						paramOps[fn][i] = &ops{}
+					}
+					if isRecv {
+						paramOps[fn][i].recv = true
+					} else {
+						paramOps[fn][i].send = true
+					}
+				}
+			}
+		}
+		an.Instrs(fn, func(in ssa.Instruction) {
+			switch x := in.(type) {
+			case *ssa.UnOp:
+				if x.Op == token.ARROW {
+					note(x.X, true)
+				}
+			case *ssa.Send:
+				note(x.Chan, false)
+			case *ssa.Select:
+				for _, st := range x.States {
+					note(st.Chan, st.Dir == types.RecvOnly)
+				}
+			}
+		})
+	}
+	for _, fn := range e.P.ModFuncs {
+		an.Calls(fn, func(c ssa.CallInstruction) {
+			sc := c.Common().StaticCallee()
+			if sc == nil || paramOps[sc] == nil {
+				return
+			}
+			for i, o := range paramOps[sc] {
+				if i >= len(c.Common().Args) {
+					continue
+				}
+				if k := e.chanField(c.Common().Args[i]); k != "" {
+					if o.recv {
+						recv[k] = true
+					}
+					if o.send {
+						send[k] = true
+					}
+				}
+			}
+		})
+	}
 	for k := range recv {
 		if send[k] {
 			e.tokenFields[k] = true
@@ -328,10 +397,11 @@ func (e *Engine) note(format string, args ...any) {
 
 // RootSpec is an entry point of the analysis.
 type RootSpec struct {
-	Fn   *ssa.Function
-	Fam  int
-	Held uint64
-	Name string
+	Fn     *ssa.Function
+	Fam    int
+	Held   uint64
+	Name   string
+	Params string // parameter bindings of the root's context (sync primitives handed to a goroutine by address)
 }
 
 // Run analyses the program's entry points: every exported function and method of the root package
@@ -424,7 +494,7 @@ func (e *Engine) runRoot(r RootSpec) {
 	savedStack := e.stack
 	e.curRoot = name
 	e.stack = nil
-	ctx := ctxKey{fn: r.Fn, fam: r.Fam, held: r.Held}
+	ctx := ctxKey{fn: r.Fn, fam: r.Fam, held: r.Held, params: r.Params}
 	s := e.analyze(ctx, token.NoPos)
 	for _, ex := range s.exits {
 		extra := ex.held &^ r.Held
